@@ -86,12 +86,88 @@ __CPROVER_ensures((rxv_pk < __CPROVER_old(rxv_ncomp) || rxv_pk >= rxv_ncomp) ==>
 __CPROVER_ensures(S->f[0] == __CPROVER_old(S->f[0]) && S->f[1] == __CPROVER_old(S->f[1])
 	&& S->outlen == __CPROVER_old(S->outlen) && S->last_node == __CPROVER_old(S->last_node));
 
+/* the same contract (all clauses) under the extra precondition that the input fits into the buffer: this case needs no
+   loop contract (the block loop is not entered) and is decided in seconds; together with the general contract (thorough
+   tier) it is a case split, not a weaker statement */
+int rxv_update_small(blake2b_state *S, const void *in, size_t inlen)
+__CPROVER_requires(__CPROVER_is_fresh(S, sizeof(*S)))
+__CPROVER_requires(inlen < RXV_MAX_LEN && (inlen == 0 || __CPROVER_is_fresh(in, inlen)))
+__CPROVER_requires(S->buflen <= 128 && rxv_pb < 128)
+/* case split: the appended bytes still fit into the buffer (at most one block pending): no compression may happen */
+__CPROVER_requires(S->buflen + inlen <= 128)
+__CPROVER_assigns(__CPROVER_object_whole(S), RXV_LOG_ASSIGNS)
+/* nothing to do / finalised state: documented return value and no change at all */
+__CPROVER_ensures(inlen == 0 ==> (__CPROVER_return_value == 0 && rxv_ncomp == __CPROVER_old(rxv_ncomp) && S->buflen == __CPROVER_old(S->buflen)
+	&& S->t[0] == __CPROVER_old(S->t[0]) && S->t[1] == __CPROVER_old(S->t[1]) && S->buf[rxv_px % 128] == __CPROVER_old(S->buf[rxv_px % 128])
+	&& RXV_LOG_UNCHANGED))
+__CPROVER_ensures((inlen > 0 && __CPROVER_old(S->f[0]) != 0) ==> (__CPROVER_return_value == -1 && rxv_ncomp == __CPROVER_old(rxv_ncomp)
+	&& S->buflen == __CPROVER_old(S->buflen) && S->t[0] == __CPROVER_old(S->t[0]) && S->t[1] == __CPROVER_old(S->t[1]) && RXV_LOG_UNCHANGED))
+/* the regular case: new buffer length, number of compressions, 128-bit counter */
+__CPROVER_ensures(RXV_UPD_REGULAR(S, inlen) ==> (__CPROVER_return_value == 0
+	&& S->buflen == RXV_NEWBUFLEN(__CPROVER_old(S->buflen), inlen)
+	&& rxv_ncomp == __CPROVER_old(rxv_ncomp) + (RXV_TOTAL(S, inlen) - S->buflen) / 128
+	&& S->t[0] == __CPROVER_old(S->t[0]) + 128 * (rxv_ncomp - __CPROVER_old(rxv_ncomp))
+	&& S->t[1] == __CPROVER_old(S->t[1]) + (S->t[0] < __CPROVER_old(S->t[0]) ? 1 : 0)))
+/* the retained bytes are the tail of the stream (clause proved for the byte the memcpy stub tracks) */
+__CPROVER_ensures((RXV_UPD_REGULAR(S, inlen) && rxv_px < RXV_TOTAL(S, inlen) && rxv_px >= RXV_TOTAL(S, inlen) - S->buflen
+	&& RXV_TRACKED(RXV_BUF_OFF + (rxv_px - (RXV_TOTAL(S, inlen) - S->buflen))))
+	==> S->buf[rxv_px - (RXV_TOTAL(S, inlen) - S->buflen)] == RXV_CAT_OLD(S, in))
+/* everything before the tail was compressed in stream order, 128 bytes per call, counter = bytes so far, final flag clear */
+__CPROVER_ensures((RXV_UPD_REGULAR(S, inlen) && RXV_PROBE_FOLLOWS_STREAM && rxv_px < RXV_TOTAL(S, inlen) - S->buflen
+	&& (rxv_px >= 128 || RXV_TRACKED(RXV_BUF_OFF + rxv_pb)))   /* the first block goes through buf: tracked byte */
+	==> (rxv_k_byte == RXV_CAT_OLD(S, in)
+		&& rxv_k_t0 == __CPROVER_old(S->t[0]) + 128 * (rxv_px / 128 + 1)
+		&& rxv_k_t1 == __CPROVER_old(S->t[1]) + (rxv_k_t0 < __CPROVER_old(S->t[0]) ? 1 : 0)
+		&& rxv_k_f0 == 0 && rxv_k_f1 == __CPROVER_old(S->f[1])))
+/* the chaining value changes only through compression calls */
+__CPROVER_ensures(rxv_ncomp == __CPROVER_old(rxv_ncomp) ==> RXV_H_KEPT(S))
+/* records of calls that are not made by this update are untouched */
+__CPROVER_ensures((rxv_pk < __CPROVER_old(rxv_ncomp) || rxv_pk >= rxv_ncomp) ==> RXV_LOG_UNCHANGED)
+__CPROVER_ensures(S->f[0] == __CPROVER_old(S->f[0]) && S->f[1] == __CPROVER_old(S->f[1])
+	&& S->outlen == __CPROVER_old(S->outlen) && S->last_node == __CPROVER_old(S->last_node));
+
 /* the arithmetic part of the same contract (buffer length, number of compressions, 128-bit counter, frame), as a
    separate contract symbol so that it can be enforced on its own (smaller solver query) */
 int rxv_update_arith(blake2b_state *S, const void *in, size_t inlen)
 __CPROVER_requires(__CPROVER_is_fresh(S, sizeof(*S)))
 __CPROVER_requires(inlen < RXV_MAX_LEN && (inlen == 0 || __CPROVER_is_fresh(in, inlen)))
 __CPROVER_requires(S->buflen <= 128 && rxv_pb < 128)
+__CPROVER_assigns(__CPROVER_object_whole(S), RXV_LOG_ASSIGNS)
+__CPROVER_ensures(inlen == 0 ==> (__CPROVER_return_value == 0 && rxv_ncomp == __CPROVER_old(rxv_ncomp) && S->buflen == __CPROVER_old(S->buflen)
+	&& S->t[0] == __CPROVER_old(S->t[0]) && S->t[1] == __CPROVER_old(S->t[1])))
+__CPROVER_ensures((inlen > 0 && __CPROVER_old(S->f[0]) != 0) ==> (__CPROVER_return_value == -1 && rxv_ncomp == __CPROVER_old(rxv_ncomp)
+	&& S->buflen == __CPROVER_old(S->buflen) && S->t[0] == __CPROVER_old(S->t[0]) && S->t[1] == __CPROVER_old(S->t[1])))
+__CPROVER_ensures(RXV_UPD_REGULAR(S, inlen) ==> (__CPROVER_return_value == 0
+	&& S->buflen == RXV_NEWBUFLEN(__CPROVER_old(S->buflen), inlen)
+	&& rxv_ncomp == __CPROVER_old(rxv_ncomp) + (RXV_TOTAL(S, inlen) - S->buflen) / 128
+	&& S->t[0] == __CPROVER_old(S->t[0]) + 128 * (rxv_ncomp - __CPROVER_old(rxv_ncomp))
+	&& S->t[1] == __CPROVER_old(S->t[1]) + (S->t[0] < __CPROVER_old(S->t[0]) ? 1 : 0)))
+__CPROVER_ensures(S->f[0] == __CPROVER_old(S->f[0]) && S->f[1] == __CPROVER_old(S->f[1])
+	&& S->outlen == __CPROVER_old(S->outlen) && S->last_node == __CPROVER_old(S->last_node));
+
+int rxv_update_arith_oneblock(blake2b_state *S, const void *in, size_t inlen)
+__CPROVER_requires(__CPROVER_is_fresh(S, sizeof(*S)))
+__CPROVER_requires(inlen < RXV_MAX_LEN && (inlen == 0 || __CPROVER_is_fresh(in, inlen)))
+__CPROVER_requires(S->buflen <= 128 && rxv_pb < 128)
+__CPROVER_requires(S->buflen + inlen > 128 && S->buflen + inlen <= 256)   /* case: exactly one block is completed and compressed */
+__CPROVER_assigns(__CPROVER_object_whole(S), RXV_LOG_ASSIGNS)
+__CPROVER_ensures(inlen == 0 ==> (__CPROVER_return_value == 0 && rxv_ncomp == __CPROVER_old(rxv_ncomp) && S->buflen == __CPROVER_old(S->buflen)
+	&& S->t[0] == __CPROVER_old(S->t[0]) && S->t[1] == __CPROVER_old(S->t[1])))
+__CPROVER_ensures((inlen > 0 && __CPROVER_old(S->f[0]) != 0) ==> (__CPROVER_return_value == -1 && rxv_ncomp == __CPROVER_old(rxv_ncomp)
+	&& S->buflen == __CPROVER_old(S->buflen) && S->t[0] == __CPROVER_old(S->t[0]) && S->t[1] == __CPROVER_old(S->t[1])))
+__CPROVER_ensures(RXV_UPD_REGULAR(S, inlen) ==> (__CPROVER_return_value == 0
+	&& S->buflen == RXV_NEWBUFLEN(__CPROVER_old(S->buflen), inlen)
+	&& rxv_ncomp == __CPROVER_old(rxv_ncomp) + (RXV_TOTAL(S, inlen) - S->buflen) / 128
+	&& S->t[0] == __CPROVER_old(S->t[0]) + 128 * (rxv_ncomp - __CPROVER_old(rxv_ncomp))
+	&& S->t[1] == __CPROVER_old(S->t[1]) + (S->t[0] < __CPROVER_old(S->t[0]) ? 1 : 0)))
+__CPROVER_ensures(S->f[0] == __CPROVER_old(S->f[0]) && S->f[1] == __CPROVER_old(S->f[1])
+	&& S->outlen == __CPROVER_old(S->outlen) && S->last_node == __CPROVER_old(S->last_node));
+
+int rxv_update_arith_small(blake2b_state *S, const void *in, size_t inlen)
+__CPROVER_requires(__CPROVER_is_fresh(S, sizeof(*S)))
+__CPROVER_requires(inlen < RXV_MAX_LEN && (inlen == 0 || __CPROVER_is_fresh(in, inlen)))
+__CPROVER_requires(S->buflen <= 128 && rxv_pb < 128)
+__CPROVER_requires(S->buflen + inlen <= 128)   /* case: the input fits into the buffer - no compression may happen */
 __CPROVER_assigns(__CPROVER_object_whole(S), RXV_LOG_ASSIGNS)
 __CPROVER_ensures(inlen == 0 ==> (__CPROVER_return_value == 0 && rxv_ncomp == __CPROVER_old(rxv_ncomp) && S->buflen == __CPROVER_old(S->buflen)
 	&& S->t[0] == __CPROVER_old(S->t[0]) && S->t[1] == __CPROVER_old(S->t[1])))
